@@ -47,7 +47,7 @@ theorem finE_wf_at (k : FillCtx) (y : Nat) (cand : List Nat) (hy : y ≤ 2099) (
 
 /-- `fillYly_wf` with the proviso on `shift()` for the years from the loop's first on -/
 theorem fillYly_wf_at (r : Rule) (p : Inst) (n : Nat) (l : List Inst) (hr : WfRule r) (hp : WfInst p)
-    (hs : ∀ y, ylyStart r p ≤ y → y ≤ 2099 → KeepsAt r.shift y) (had : AllDayOk r p) (h : fillYly r p n = some l) :
+    (hs : ∀ y, ylyStart r p ≤ y → y ≤ 2099 → KeepsAt r.shift y) (h : fillYly r p n = some l) :
     ∀ x ∈ l, WfInst x := by
   rcases fillYly_some r p n l h with rfl | ⟨nti, _, rfl⟩
   · exact fun x hx => (nomatch hx)
@@ -63,16 +63,16 @@ theorem fillYly_wf_at (r : Rule) (p : Inst) (n : Nat) (l : List Inst) (hr : WfRu
         · have hu : u32 = 4294967296 := rfl
           have hi := hr.inter
           rw [ylyCtxOf_r, hu]; omega
-        · exact finE_wf_at _ y _ hy (hc y) (hs y hJ.1 hy) (times_ok r p hr hp had) hp.year x hx h2)
+        · exact finE_wf_at _ y _ hy (hc y) (hs y hJ.1 hy) (times_ok r p hr hp) hp.year x hx h2)
       (64 * (nti + 1) + 2101) (ylyStart r p) 64 {} ⟨Nat.le_refl _, fun x hx => nomatch hx⟩
     exact fun x hx => hJ.2 x (List.mem_reverse.mp hx)
 
 theorem fillYly_ok_at (r : Rule) (p : Inst) (n : Nat) (l : List Inst) (hr : WfRule r) (hp : WfInst p)
-    (hs : ∀ y, ylyStart r p ≤ y → y ≤ 2099 → KeepsAt r.shift y) (had : AllDayOk r p) (h : fillYly r p n = some l) :
+    (hs : ∀ y, ylyStart r p ≤ y → y ≤ 2099 → KeepsAt r.shift y) (h : fillYly r p n = some l) :
     FillOk r p n l :=
   { len_nti := (fillYly_len r p n l hr h).1
     len_count := (fillYly_len r p n l hr h).2
-    wf := fillYly_wf_at r p n l hr hp hs had h
+    wf := fillYly_wf_at r p n l hr hp hs h
     ge_proto := (fillYly_bounds r p n l h).1
     le_until := (fillYly_bounds r p n l h).2
     ascending := fillYly_asc r p n l hr hp h }
@@ -101,7 +101,7 @@ theorem mlyTrack_y (mon : List Nat) (inter : Nat) (hi : 1 ≤ inter ∧ inter < 
 
 /-- `fillMly_wf` with the proviso on `shift()` for the years from the loop's first on -/
 theorem fillMly_wf_at (r : Rule) (p : Inst) (n : Nat) (l : List Inst) (hr : WfRule r) (hp : WfInst p)
-    (hs : ∀ y0 m0 y, mlyStart r p = some (y0, m0) → y0 ≤ y → y ≤ 2099 → KeepsAt r.shift y) (had : AllDayOk r p)
+    (hs : ∀ y0 m0 y, mlyStart r p = some (y0, m0) → y0 ≤ y → y ≤ 2099 → KeepsAt r.shift y)
     (h : fillMly r p n = some l) : ∀ x ∈ l, WfInst x := by
   rcases fillMly_some r p n l h with rfl | ⟨nti, y0, m0, _, hst, hpm1, hpm2, rfl⟩
   · exact fun x hx => (nomatch hx)
@@ -115,7 +115,7 @@ theorem fillMly_wf_at (r : Rule) (p : Inst) (n : Nat) (l : List Inst) (hr : WfRu
         have hn := mlyNext_spec r.mon r.inter hr.inter 12 y m (by omega) (by unfold maxYear at hy; omega) hJ.1
         refine ⟨⟨hn.1, hn.2.1⟩, ?_, he.inv (fun x hx _ h2 => ?_) hJ.2.2⟩
         · rw [mlyCtxOf_r]; omega
-        · exact finE_wf_at _ y _ hy (hc y m hJ.1) (hs y0 m0 y hst hJ.2.1 hy) (times_ok r p hr hp had) hp.year x hx h2)
+        · exact finE_wf_at _ y _ hy (hc y m hJ.1) (hs y0 m0 y hst hJ.2.1 hy) (times_ok r p hr hp) hp.year x hx h2)
       (mlyTries * (nti + 1) + 12 * 2100 + 1) y0 m0 mlyTries {}
       ⟨mlyStart_m r p hr ⟨hpm1, hpm2⟩ y0 m0 hst, Nat.le_refl _, fun x hx => nomatch hx⟩
     exact fun x hx => hJ.2.2 x (List.mem_reverse.mp hx)
